@@ -137,6 +137,26 @@ pub fn all_rows_sx(p: &mut Package<Medium>) -> Sx {
     Sx::L(out)
 }
 
+pub fn stream_data_sx(p: &mut Package<Medium>) -> Sx {
+    let mut v: Vec<String> = p.streams().collect();
+    v.sort();
+    let mut out = Vec::new();
+    for n in v {
+        let d = match p.read_stream(&n) {
+            Ok(mut r) => {
+                let mut b = Vec::new();
+                match r.read_to_end(&mut b) {
+                    Ok(_) => Sx::ok(Sx::bytes(&b)),
+                    Err(_) => Sx::err(),
+                }
+            }
+            Err(_) => Sx::err(),
+        };
+        out.push(Sx::L(vec![Sx::string(&n), d]));
+    }
+    Sx::L(out)
+}
+
 /// the raw streams of the medium, read with the cfb crate only
 pub fn raw_sx(bytes: Vec<u8>) -> Sx {
     let mut comp = match cfb::CompoundFile::open(Cursor::new(bytes)) {
@@ -253,7 +273,7 @@ pub fn pkg_cmd(st: &mut State, name: &str, args: &[Sx]) -> Option<Sx> {
                 "create_table" | "drop_table" | "insert" | "delete" | "update" | "select" | "tables" | "ptype" | "db_cp"
                     | "set_db_cp" | "streams" | "has_stream" | "read_stream" | "write_stream" | "remove_stream" | "has_sig"
                     | "remove_sig" | "sum_get" | "sum_set" | "sum_clear" | "flush" | "reopen" | "raw" | "rows" | "stream_data"
-                    | "writes"
+                    | "writes" | "snapshot"
             ) {
                 return None;
             }
@@ -370,7 +390,21 @@ pub fn pkg_cmd(st: &mut State, name: &str, args: &[Sx]) -> Option<Sx> {
                 }
                 ("flush", []) => unit_res(p.flush()),
                 ("rows", []) => all_rows_sx(p),
-                ("stream_data", []) => {
+                ("snapshot", []) => {
+                    let pt = Sx::I(match p.package_type() {
+                        PackageType::Installer => 0,
+                        PackageType::Patch => 1,
+                        PackageType::Transform => 2,
+                    });
+                    let cp = Sx::I(p.database_codepage().id() as i128);
+                    let tabs = sorted_tables(p);
+                    let rows = all_rows_sx(p);
+                    let streams = stream_data_sx(p);
+                    let sum = summary_sx(p);
+                    Sx::L(vec![pt, cp, tabs, rows, streams, sum])
+                }
+                ("stream_data", []) => stream_data_sx(p),
+                ("stream_data_old", []) => {
                     let mut v: Vec<String> = p.streams().collect();
                     v.sort();
                     let mut out = Vec::new();
